@@ -57,3 +57,17 @@ Definition P_b (c : case) : bool :=
 
 Definition mismatches (cs : list case) : list N := failing_ids c_id agree cs.
 Definition violations (cs : list case) : list N := failing_ids c_id P_b cs.
+
+(* What P_b establishes for one call (proved in Proofs/C19_Check.v, theorem C19_P_b_sound): the
+   observed value is related to the configuration and the queried path by the property's own
+   relation [resolves]. *)
+Definition query_ok (c : config) (def : Z) (q : query) : Prop :=
+  match q with
+  | QAddr s o => exists v, resolves addr_has to_slice addr_top k_addresses c (path_of_string s) v
+                           /\ slice_items v = slice_items o
+  | QTimeout s o => resolves dur_has to_duration dur_top k_timeout c (path_of_string s) o
+  | QLevel s o => resolves str_nonempty (level_of def) (level_top def) k_loglevel c (path_of_string s) o
+  | QConc s o => resolves str_nonempty to_int64 conc_top k_concurrency c (path_of_string s) o
+  | QBool var s o => resolves str_nonempty to_bool (bool_top var) var c (path_of_string s) o
+  | QPanic _ => False
+  end.
